@@ -50,18 +50,22 @@ def handleGr (toks : List String) : Option String := do
     let (ts, r2) ← takeMap parseNatDigits N r1
     let (xs, r3) ← takeMap parseRat (N*d) r2
     rest := r3
-    let H := arrFn2 hs d
+    -- concrete arrays, closed over (a partially applied `arrFn`/`memo` would rebuild its array on every read)
+    let hA := hs.toArray; let tA := ts.toArray; let xA := xs.toArray
+    let H : Nat → Nat → Rat := fun i j => hA.getD (i * d + j) 0
     let inv := Pbc.inverse d H
-    let invl := (List.range (d*d)).map fun q => inv (q / d) (q % d)
-    frames := frames.push { pos := arrFn2 xs d, typ := arrFn ts, H := H, Hinv := arrFn2 invl d }
+    let iA : Array Rat := Array.ofFn (n := d * d) fun q => inv (q.val / d) (q.val % d)
+    frames := frames.push { pos := fun i k => xA.getD (i * d + k) 0, typ := fun i => tA.getD i 0, H := H,
+                            Hinv := fun i j => iA.getD (i * d + j) 0 }
   if !rest.isEmpty then none
   let dflt : Frame Rat := { pos := fun _ _ => 0, typ := fun _ => 0, H := fun _ _ => 0, Hinv := fun _ _ => 0 }
   let frameFn : Nat → Frame Rat := fun f => frames.getD f dflt
   let uc := uniqueCounts (frameFn 0).typ N
   let K := uc.length
   let tcs := uc.map (·.2)
-  let tr0 : Traj Rat := { d := d, N := N, T := T, frame := frameFn, ppp := arrFn ps, box := arrFn bs, rdelta := δ,
-                          maxbin := 0, pi := piRat, typecount := arrFn tcs }
+  let pA := ps.toArray; let bA := bs.toArray; let cA := tcs.toArray
+  let tr0 : Traj Rat := { d := d, N := N, T := T, frame := frameFn, ppp := fun i => pA.getD i 0, box := fun i => bA.getD i 0,
+                          rdelta := δ, maxbin := 0, pi := piRat, typecount := fun i => cA.getD i 0 }
   let D := Pms.Gen.Gr.defs
   let x := Impl.maxbinArg D tr0
   if x < 0 then none
@@ -73,6 +77,12 @@ def handleGr (toks : List String) : Option String := do
   let tab : Array (Array (Array Rat)) := Array.ofFn (n := T) fun f =>
     Array.ofFn (n := N) fun i => Array.ofFn (n := N) fun j => dist2 ratRint tr f.val i.val j.val
   let d2 : Nat → Nat → Nat → Rat := fun f i j => ((tab.getD f #[]).getD i #[]).getD j 0
+  -- the model's bin predicate `binOf tr d2`, tabulated once per pair: the index of the (unique, C03_bin_unique) bin
+  -- accepted by `inBin`, or maxbin when the pair is outside the histogram range
+  let binTab : Array (Array (Array Nat)) := Array.ofFn (n := T) fun f =>
+    Array.ofFn (n := N) fun i => Array.ofFn (n := N) fun j =>
+      ((List.range maxbin).find? fun k => binOf tr d2 f.val i.val j.val k).getD maxbin
+  let bin : Nat → Nat → Nat → Nat → Bool := fun f i j k => ((binTab.getD f #[]).getD i #[]).getD j maxbin == k
   -- margins: rint ties of the fractional coordinates on periodic axes, and bin edges
   let mut margin : Rat := 1
   for f in List.range T do
@@ -95,12 +105,12 @@ def handleGr (toks : List String) : Option String := do
     | none => []
     | some M =>
       ("r", ks.map fun k => Impl.r D M tr k) ::
-        M.cols.map fun col => (col.name, ks.map fun k => Impl.valueOf D M tr d2 col k)
+        M.cols.map fun col => (col.name, ks.map fun k => Impl.valueOf D M tr bin col k)
   let specPairs := if K ≤ 5 ∧ K ≥ 2 then expectedPairs K else []
   let spec : List (String × List Rat) :=
     ("r", ks.map fun k => Spec.r tr k) ::
-    ("gr", ks.map fun k => Spec.gTotalOf tr d2 k) ::
-      specPairs.map fun p => (pairName p, ks.map fun k => Spec.gOf tr d2 p.1 p.2 k)
+    ("gr", ks.map fun k => Spec.gTotalOf tr bin k) ::
+      specPairs.map fun p => (pairName p, ks.map fun k => Spec.gOf tr bin p.1 p.2 k)
   let specMb := (Spec.maxbinArg tr).floor.toNat
   pure (head ++ " ; " ++ joinCols impl ++ s!" | {specMb} ; " ++ joinCols spec)
 
